@@ -2,7 +2,9 @@ package props
 
 import (
 	"bytes"
+	"encoding/binary"
 	"fmt"
+	"math/bits"
 	"os"
 	"os/exec"
 	"path/filepath"
@@ -35,6 +37,7 @@ var c13Keywords = []string{"NX", "XX", "GT", "LT", "EX", "PX", "EXAT", "PXAT", "
 	"MATCH", "TYPE", "LIMIT", "BY", "ASC", "DESC", "ALPHA", "STORE", "WITHVALUES", "REPLACE", "ABSTTL", "DB", "LEN", "IDX", "MINMATCHLEN", "WITHMATCHLEN", "BIT", "BYTE",
 	"OVERFLOW", "WRAP", "SAT", "FAIL", "SET", "INCRBY", "AND", "OR", "XOR", "NOT", "ID", "ADDR", "LADDR", "USER", "SKIPME", "YES", "NO", "TIMEOUT", "ERROR", "ON", "OFF",
 	"SETNAME", "AUTH", "FILTERBY", "MODULE", "ACLCAT", "PATTERN", "string", "list", "hash", "set", "LIB-NAME", "LIB-VER", "ASYNC", "SYNC"}
+
 // (the last four: names whose length is a multiple of 8 and that differ only in bit 3 of a block's first
 // byte - they once received identical table hashes, and storing both never returned)
 var c13Keys = []string{"ks", "kl", "kh", "kz", "kmiss", "kempty", "ks1", "0abcdefg", "8abcdefg", "0abcdefgABCDEFGH", "8abcdefgABCDEFGH"}
@@ -198,7 +201,9 @@ func c13Gen(t *rapid.T) C13Case {
 		if rapid.IntRange(0, 4).Draw(t, "split") == 0 {
 			split = rapid.IntRange(1, 999).Draw(t, "splitat")
 		}
-		switch weighted(t, "kind", []int{6, 2, 2, 2, 12, 1}) {
+		switch weighted(t, "kind", []int{6, 2, 2, 2, 12, 1, 1}) {
+		case 6:
+			c.Frames = append(c.Frames, C13Frame{Argv: c13Crafted(t), Split: split})
 		case 5:
 			// a value larger than the server's 8 KiB read buffer
 			c.Frames = append(c.Frames, C13Frame{Argv: kit.A(pick(t, "bigcmd", "SET", "APPEND", "LPUSH", "SADD", "ECHO"), "kbig", strings.Repeat("v", pick(t, "biglen", 8192, 8193, 9000, 20000))), Split: split})
@@ -215,6 +220,39 @@ func c13Gen(t *rapid.T) C13Case {
 		}
 	}
 	return c
+}
+
+// c13Checksum mirrors the trailer of the emulator's DUMP format (checked against a real DUMP in TestC13ChecksumMirror);
+// if the format changes the crafted payloads are merely rejected as corrupt.
+func c13Checksum(data []byte) []byte {
+	var sum uint64
+	for _, b := range data {
+		sum = bits.RotateLeft64(sum, 10) ^ uint64(b)
+	}
+	out := make([]byte, 8)
+	binary.BigEndian.PutUint64(out, sum)
+	return out
+}
+
+// c13Crafted: DUMP payload content with every field drawn independently.
+func c13Crafted(t *rapid.T) kit.Argv {
+	data := rapid.SliceOfN(rapid.Byte(), 0, 8).Draw(t, "data")
+	version := pick(t, "ver", 1, 1, 1, 1, 1, 0, 2, 255)
+	typ := pick(t, "type", 1, 1, 2, 4, 8, 16, 3, 5, 9, 0, 255, 32, 64, 128, 17, rapid.IntRange(0, 255).Draw(t, "anytype"))
+	declared := uint32(len(data) + 1)
+	switch rapid.IntRange(0, 9).Draw(t, "declkind") {
+	case 0:
+		declared = 0
+	case 1:
+		declared = uint32(len(data))
+	case 2:
+		declared = uint32(len(data) + 2)
+	case 3:
+		declared = pick(t, "decl", uint32(0xFFFFFFFF), uint32(0x80000000), uint32(0x7FFFFFFF), uint32(1), uint32(9))
+	}
+	content := []byte{byte(version), byte(typ), byte(declared >> 24), byte(declared >> 16), byte(declared >> 8), byte(declared)}
+	content = append(content, data...)
+	return kit.A("@RESTORECRAFT", string(content))
 }
 
 // ---- child process host ---------------------------------------------------------------------------------------
@@ -414,6 +452,30 @@ func c13Run(c C13Case, st *kit.Stats) error {
 			continue
 		}
 		argv := f.Argv.Strs()
+		if argv[0] == "@RESTORECRAFT" {
+			// a payload built field by field (version, type bits, declared length, data) under a correct checksum, then commands of every family on the restored key
+			st.Class("restore-crafted")
+			payload := argv[1] + string(c13Checksum([]byte(argv[1])))
+			for _, a := range [][]string{{"RESTORE", "kr", "0", payload, "REPLACE"}, {"TYPE", "kr"}, {"GET", "kr"}, {"STRLEN", "kr"}, {"APPEND", "kr", "x"}, {"HGET", "kr", "f"}, {"HLEN", "kr"}, {"HSET", "kr", "f", "v"}, {"HGETALL", "kr"},
+				{"RESTORE", "kr", "0", payload, "REPLACE"}, {"SCARD", "kr"}, {"SADD", "kr", "x"}, {"SMEMBERS", "kr"}, {"SINTER", "kr", "kz"},
+				{"RESTORE", "kr", "0", payload, "REPLACE"}, {"LLEN", "kr"}, {"RPUSH", "kr", "x"}, {"LRANGE", "kr", "0", "-1"}, {"LPOP", "kr"}, {"SORT", "kr"},
+				{"RESTORE", "kr", "0", payload, "REPLACE"}, {"DUMP", "kr"}, {"COPY", "kr", "kr2", "REPLACE"}, {"RENAME", "kr", "kr3"}, {"HLEN", "kr2"}, {"LLEN", "kr3"}, {"SCARD", "kr3"}, {"GETRANGE", "kr2", "0", "-1"}, {"KEYS", "*"}, {"DEL", "kr", "kr2", "kr3"}} {
+				rv, err := conn.DoT(5*time.Second, a...)
+				if err == nil && a[0] == "RESTORE" && rv.K == kit.KSimple {
+					st.Class("restore-crafted-accepted")
+				}
+				if err != nil {
+					suspicious = true
+					if e := died(fmt.Sprintf("on %s after RESTORE of a crafted payload %q", a[0], payload)); e != nil {
+						return e
+					}
+					return fmt.Errorf("%v after RESTORE of a crafted payload %q: %v", a[:2], payload, err)
+				}
+			}
+			sig = append(sig, "restorecraft/"+argv[1][:min(2, len(argv[1]))])
+			hostile = true
+			continue
+		}
 		if argv[0] == "@DUMPRESTORE" {
 			// DUMP a key, RESTORE the payload under another name, then use the copy
 			st.Class("dump-restore")
@@ -575,4 +637,20 @@ func TestC13(t *testing.T) {
 		}
 	}()
 	kit.Check(t, kit.Prop[C13Case]{ID: "C13", Gen: c13Gen, Run: c13Run})
+}
+
+// TestC13ChecksumMirror: the harness' copy of the DUMP trailer agrees with what the emulator emits.
+func TestC13ChecksumMirror(t *testing.T) {
+	emu := kit.StartEmu("")
+	defer emu.Stop()
+	c := emu.Dial()
+	c.Do("SET", "k", "some value")
+	d, err := c.Do("DUMP", "k")
+	if err != nil || d.K != kit.KBulk || len(d.S) < 9 {
+		t.Fatalf("DUMP: %v %v", d, err)
+	}
+	body, sum := d.S[:len(d.S)-8], d.S[len(d.S)-8:]
+	if string(c13Checksum([]byte(body))) != sum {
+		t.Skip("the DUMP trailer is no longer the one mirrored by the harness: crafted payloads only exercise the rejection path")
+	}
 }
